@@ -225,10 +225,12 @@ static void Array_Concat(var self, var obj) {
   
   a->nitems += olen;
   Array_Reserve_More(a);
+  a->nitems -= olen;
   
   foreach (item in obj) {
-    Array_Alloc(a, a->nitems-olen+i);
-    assign(Array_Item(a, a->nitems-olen+i), item);
+    Array_Alloc(a, a->nitems);
+    assign(Array_Item(a, a->nitems), item);
+    a->nitems++;
     i++;
   }
   
